@@ -5,7 +5,7 @@ one translation unit per instantiation (uintwide_t instantiates slowly under san
 instantiations are always present (4-limb unrolled multiply, single-bit-over-limb-boundary widths, 128-digit
 signed = first multi-limb width); the rest of the grid is drawn from the seed.  Instantiations with >= 129 limbs
 (Karatsuba multiplication; 8-bit limbs only inside the 65..2048-digit range) have their own TUs (`go_kara`, dense
-operands): always 2048 bits unsigned and 1568 bits (odd split: open finding), plus one drawn from the seed.
+operands): always 2048 bits unsigned and 1568 bits (odd level 49: schoolbook since 38967ec), plus one drawn from the seed.
 """
 import random
 
@@ -39,7 +39,8 @@ CUTOFF, THRESHOLD = 48, 129   # eval_multiply_kara_n_by_n_to_2n: schoolbook belo
 
 
 def kara_odd_split(n):
-    """Halving the limb count reaches an odd count above the cutoff (the defective split, C10.karatsuba_odd_split)."""
+    """Halving the limb count reaches an odd count above the cutoff: that level was split wrongly before /repo 38967ec
+    (finding C10.karatsuba_odd_split, fixed); it now multiplies schoolbook."""
     while n > CUTOFF:
         if n % 2:
             return True
@@ -51,7 +52,7 @@ def kara_odd_split(n):
 KARA_ALL = [(8 * n - (1 if t == 'i8' else 0), t) for n in range(THRESHOLD, 257) for t in ('u8', 'i8')
             if (lambda m: m <= 63)(n // (n & -n))]
 KARA_FIXED_QUICK = [(2048, 'u8'),   # 256 limbs: three Karatsuba levels (256 -> 128 -> 64 -> 32), no odd split
-                    (1568, 'u8')]   # 196 -> 98 -> 49 -> 24+24: odd split, open finding C10.karatsuba_odd_split
+                    (1568, 'u8')]   # 196 -> 98 -> 49: odd level (schoolbook since 38967ec; formerly C10.karatsuba_odd_split)
 
 
 def kara_grid(tier, seed):
@@ -59,7 +60,7 @@ def kara_grid(tier, seed):
     combos = list(KARA_FIXED_QUICK)
     rest = [c for c in KARA_ALL if c not in combos]
     sound = [c for c in rest if not kara_odd_split(storage(*c)[1])]
-    # the seed-chosen one is drawn from the unaffected instantiations twice out of three times
+    # the seed-chosen one is drawn from the instantiations without an odd level twice out of three times
     extra = 1 if tier == 'quick' else 10
     for _ in range(extra):
         pool = sound if rnd.random() < 0.67 else rest
@@ -145,12 +146,11 @@ RULE = ("per compiled wide_integer<Digits, Narrowest>: corner values (0, 1, -1, 
         "1..n limbs with top limb ~0 / 1 / 1000.. / 0111.. against numerators q*b, q*b-1, q*b+r and add-back shapes; shift counts "
         "{0,1,w-1,w,w+1,N-1,...,>=N,<0}; >= 129-limb instantiations (8-bit limbs, 1056..2048 bits: Karatsuba) get dense "
         "operands (random limbs, all-ones, 0xFE../0xF0../0xCC.. runs over the width, half, three quarters, equal halves) "
-        "cross-multiplied, in the quick tier too (2048 bits, 1568 bits = odd split, one width by seed); non-trivial = the property constrains the result (divisor non-zero, 0 <= shift < N)")
+        "cross-multiplied, in the quick tier too (2048 bits, 1568 bits = odd level, one width by seed); non-trivial = the property constrains the result (divisor non-zero, 0 <= shift < N)")
 TRUSTED = ["harness reads limbs through uintwide_t::crepresentation() and writes them through representation()",
-           "Karatsuba multiplication (>= 129 limbs) is transcribed with its in-place memory (Cnl.Wide.kara) and compared limb for limb; "
-           "on the odd-split limb counts (C10.karatsuba_odd_split) the product depends on uninitialised storage, so the "
-           "implementation's result is echoed and judged by the exact-arithmetic oracle alone; Karatsuba exactness on the "
-           "remaining limb counts is tested, not proved (KaratsubaCorrectEvenSplit is a definition)"]
+           "Karatsuba multiplication (>= 129 limbs) is transcribed with its in-place memory (Cnl.Wide.kara), compared limb for "
+           "limb and proved exact for all widths/limb counts/initial array contents (karatsuba_correct); the model follows "
+           "/repo 38967ec (schoolbook for odd limb counts)"]
 ASSUMPTIONS = ["N is the storage width (limb width x limb count), e.g. wide_integer<200,int> is a 224-bit integer",
                "multi-limb wide_integer has no operator~ and no mixed-signedness or mixed-width multi-limb operators (do not compile): outside the quantifier",
                "numeric_limits<wide_integer>::min() returns 1 (library-wide convention, also elastic_integer): modelled, not constrained",
